@@ -137,6 +137,18 @@ Proof.
   - exists m'; split; [exact E|]. eapply msp_ext; [exact Hm'|]. intros; bdestr.
 Qed.
 
+Lemma for_first_panic_at {S} (body : nat -> S -> res S) (s : S) n k :
+  0 < n -> body 0 s = Panic k -> for_ 0 n body s = Panic k.
+Proof. intros Hn Hb. unfold for_. rewrite Nat.sub_0_r. destruct n; [lia|]. cbn. now rewrite Hb. Qed.
+
+Lemma mupd_all_panic r c f (m : matrix) (g : nat -> nat -> T -> res T) k :
+  msp r c f m -> 0 < r -> 0 < c -> g 0 0 (f 0 0) = Panic k -> mupd_all m g = Panic k.
+Proof.
+  intros Hm H0r H0c Hg. pose proof Hm as (_ & Hr & Hc & _). unfold mupd_all. rewrite Hr, Hc.
+  apply for_first_panic_at; auto. apply for_first_panic_at; auto.
+  rewrite (mget_msp r c f m 0 0 Hm H0r H0c). cbn [bind]. now rewrite Hg.
+Qed.
+
 Lemma madd_assign_msp r c f g (a b : matrix) : msp r c f a -> msp r c g b ->
   exists m', madd_assign a b = Ok m' /\ msp r c (fun i j => add (f i j) (g i j)) m'.
 Proof.
@@ -167,6 +179,9 @@ Proof. intros Hm. apply (mupd_all_msp r c f m); auto. Qed.
 Lemma mdiv_assign_scalar_msp r c f (m : matrix) s (dv : T -> T) : msp r c f m -> (forall x, div x s = Ok (dv x)) ->
   exists m', mdiv_assign_scalar m s = Ok m' /\ msp r c (fun i j => dv (f i j)) m'.
 Proof. intros Hm Hd. apply (mupd_all_msp r c f m); auto. Qed.
+Lemma mdiv_assign_scalar_panic r c f (m : matrix) s k : msp r c f m -> 0 < r -> 0 < c ->
+  (forall x, div x s = Panic k) -> mdiv_assign_scalar m s = Panic k.
+Proof. intros Hm H0r H0c Hd. apply (mupd_all_panic r c f m); auto. Qed.
 
 
 (* ---------- the matrix product, as written: for col: result.set_col(col, a.multiply(b.get_col(col))) ---------- *)
